@@ -143,7 +143,7 @@ int main(int argc, char** argv) {
   server.config.thread_pool_size = programOptions.numberOfThreads;
 
   // updateCache:
-  server.resource["^/updateCache[/]?$"]["GET"]=[&server, &transitData](std::shared_ptr<HttpServer::Response> serverResponse, std::shared_ptr<HttpServer::Request> request) {
+  server.resource["^/updateCache[/]?$"]["GET"]=[&server, &transitData, &dataStatus](std::shared_ptr<HttpServer::Response> serverResponse, std::shared_ptr<HttpServer::Request> request) {
 
     std::string              response {""};
     std::vector<std::string> parametersWithValues;
@@ -258,6 +258,9 @@ int main(int argc, char** argv) {
         cacheNamesStr += ",";
       }
     }
+
+    // The endpoints answer from the data status: it must reflect the data just reloaded
+    dataStatus = transitData.getDataStatus();
 
     //TODO do this only if we had at least one correct name
     //Reinit some data after the update
